@@ -226,6 +226,16 @@ func c10GenChain(t *rapid.T) hx.World {
 	if len(lay.Inspect) > 0 {
 		lay.Inspect[0].Run = append(lay.Inspect[0].Run, "log:@ROOT@/params.log:{TAG}")
 	}
+	// rule patterns that are not path-clean (they match nothing, cleaned or not): the verifier may
+	// normalise them for its own use, but not inside the caller's layout
+	if rapid.Bool().Draw(t, "uncleanpatterns") {
+		st := &lay.Steps[rapid.IntRange(0, len(lay.Steps)-1).Draw(t, "uncleanstep")]
+		st.ExpMat = append([][]string{{"ALLOW", "./unused//pattern"}}, st.ExpMat...)
+		st.ExpProd = append([][]string{{"DISALLOW", "no/../such/"}}, st.ExpProd...)
+		if len(lay.Inspect) > 0 {
+			lay.Inspect[0].ExpMat = append([][]string{{"ALLOW", "unused/./too"}}, lay.Inspect[0].ExpMat...)
+		}
+	}
 	// functionaries agree on materials and products, but each has its own by-products and command line
 	for i := range w.Links {
 		l := *w.Links[i].Meta.Link
